@@ -7,6 +7,7 @@ open M_c06
    stp <21 state fields> ccs | hs <typ> <body> <msn> -> <out> <post-state> lm=<lastMsn>   (one [dstep])
        state: server v13 hs rsec wsec err resumed cauth psk dhe tick status lastccs usingpsk hrr early tickkeys gotcr dtls cookie lastMsn
        body:  F | P | N0 | N1 | NC (DTLS ClientHello, empty cookie) | H12:<resumed psk dhe tick status> | H13:<hrr psk early>
+              | D13:<hrr> | D12:<psk dhe>  (ClientHello that OFFERED a resumption the server does not select)
    lg S <v13> <cauth> <tickkeys> | C <v13> <tick>  then items  C | <typ>:<body>   -> complete=<b> prefix=<b> mode=...   *)
 let bt s = (s = "1")
 let zi s = z_of_int (int_of_string s)
@@ -15,6 +16,8 @@ let bc c = (c = '1')
 let body_of s =
   if s = "F" then BFail else if s = "P" then BPlain else if s = "N0" then BFin false else if s = "N1" then BFin true
   else if s = "NC" then BHelloNoCookie
+  else if String.length s >= 5 && String.sub s 0 4 = "D13:" then BHello13d (bc s.[4])
+  else if String.length s >= 6 && String.sub s 0 4 = "D12:" then BHello12d (bc s.[4], bc s.[5])
   else if String.length s >= 9 && String.sub s 0 4 = "H12:" then BHello12 (bc s.[4], bc s.[5], bc s.[6], bc s.[7], bc s.[8])
   else if String.length s >= 7 && String.sub s 0 4 = "H13:" then BHello13 (bc s.[4], bc s.[5], bc s.[6])
   else BFail
@@ -134,7 +137,8 @@ let () = iter_lines (fun l ->
     let md = (match negotiated c !items with
               | None -> "none"
               | Some m -> Printf.sprintf "v13=%d,sv=%d,kex=%s,cauth=%d,res=%s,nt=%d,ocsp=%d,hrr=%d,early=%d" (b2i m.md_v13) (b2i m.md_server)
-                            (show_kex m.md_kex) (b2i m.md_cauth) (show_res m.md_res) (b2i m.md_newticket) (b2i m.md_ocsp) (b2i m.md_hrr) (b2i m.md_early)) in
+                            (show_kex m.md_kex) (b2i m.md_cauth) (show_res m.md_res) (b2i m.md_newticket) (b2i m.md_ocsp) (b2i m.md_hrr) (b2i m.md_early)
+                            ^ Printf.sprintf ",declined=%d" (b2i m.md_declined)) in
     Printf.sprintf "complete=%d prefix=%d mode=%s" (b2i (completeb c !items)) (b2i (prefix_okb c !items)) md
   end
   else "BADCASE")
